@@ -1,8 +1,186 @@
 (* C18 finding classes (definitions only): a narrow, decidable description of the statements on
-   which TurDB, as it is, is known not to return what SQL defines.  0 = no recorded finding. *)
+   which TurDB, as it is, is known not to return what SQL defines.  0 = no recorded finding.
+   Every class names ONE mechanism of the implementation model (Model/SubqImpl.v); the first
+   that applies is reported.  Proof/SubqImpl.v proves that on class 0 the model returns what
+   the reference semantics defines.
+
+   set-operation chains
+     3  a branch whose WHERE contains a subquery (decorrelated branch = no table scan: error;
+        scalar subquery never computed)
+     2  two or more operators whose standard reading (INTERSECT first, then left to right)
+        differs from the parser's right-associative reading
+     1  INTERSECT ALL / EXCEPT ALL (decided by membership instead of by counting)
+   single SELECT
+     4  a subquery in the select list (never computed: NULL, or column 0 on the join path)
+     5  EXISTS / IN (subquery) next to other conjuncts: the Filter is replaced by the join, the
+        other conjuncts are dropped
+     6  NOT IN (subquery) executed as a plain anti join (NULLs ignored)
+     7  semi / anti join whose condition has a column = column conjunct: only those key pairs
+        are used (the rest of the condition is dropped; keys that do not pair an outer with an
+        inner column are ignored; a bare column name resolves to the outer table first)
+     8  a subquery nested in the WHERE of a decorrelated subquery (EXISTS / IN read TRUE, a scalar
+        subquery is missing)
+     9  EXISTS / IN (subquery) that is not decorrelated (under OR / NOT / IS NULL, or over a
+        derived table): reads TRUE
+    10  a correlated scalar subquery: error "column not found"
+    11  a scalar subquery whose own WHERE contains a subquery, or whose FROM is a derived table
+        (NULL, or computed with EXISTS / IN read as TRUE)
+    12  a scalar subquery with more than one row: the first row is used, no error
+    13  FROM (subquery) whose levels or whose outer WHERE contain subqueries *)
 From Coq Require Import ZArith List Bool Arith.
 From TV Require Import Model.SqlSpec Model.SubqSpec Model.SubqImpl.
 Import ListNotations.
 Open Scope Z_scope.
 
-Definition stmt_class (widths : list nat) (db : list table) (c : chain) : Z := 0.
+(* ------------------------------------------------------------------ chains *)
+(* the two readings of the chain, compared on the NUMBERS of the leaves *)
+Fixpoint stree_eqb (a b : stree nat) : bool :=
+  match a, b with
+  | TLeaf x, TLeaf y => (x =? y)%nat
+  | TNode k1 a1 l1 r1, TNode k2 a2 l2 r2 =>
+      (match k1, k2 with KUnion, KUnion | KIntersect, KIntersect | KExcept, KExcept => true | _, _ => false end)
+      && Bool.eqb a1 a2 && stree_eqb l1 l2 && stree_eqb r1 r2
+  | _, _ => false
+  end.
+Fixpoint number_ops {A} (n : nat) (l : list (setk * bool * A)) : list (setk * bool * nat) :=
+  match l with
+  | [] => []
+  | (k, all, _) :: l' => (k, all, n) :: number_ops (S n) l'
+  end.
+Definition number_chain {A} (c : gchain A) : gchain nat := (O, number_ops 1 (snd c)).
+Definition same_reading {A} (c : gchain A) : bool :=
+  stree_eqb (parse_std (number_chain c)) (parse_right (number_chain c)).
+
+Definition leaf_has_sub (q : qry) : bool :=
+  match q with
+  | QSel items _ w => existsb has_sub items || match w with Some p => has_sub p | None => false end
+  | QSet _ _ _ _ => true
+  end.
+Definition is_all_ie (o : setk * bool * qry) : bool :=
+  match o with
+  | (KIntersect, true, _) | (KExcept, true, _) => true
+  | _ => false
+  end.
+
+Definition chain_class (c : chain) : Z :=
+  if leaf_has_sub (fst c) || existsb (fun o => leaf_has_sub (snd o)) (snd c) then 3
+  else if negb (same_reading c) then 2
+  else if existsb is_all_ie (snd c) then 1
+  else 0.
+
+(* ------------------------------------------------------------------ single SELECT *)
+Section Db.
+  Variable widths : list nat.
+  Variable db : list table.
+
+  (* a key column resolves (find_column_idx) to the table its level says: level 0 = the
+     subquery's table (right), level 1 = the outer table (left) *)
+  Definition key_side_ok (lw rw : nat) (c : nat * nat * bool) : bool :=
+    match c with
+    | (O, i, _) => match key_idx lw rw c with Some j => (j =? lw + i)%nat | None => false end
+    | (S O, i, _) => match key_idx lw rw c with Some j => (j =? i)%nat | None => false end
+    | _ => false
+    end.
+  (* every conjunct of the condition is a usable key: column = column pairing an outer with an
+     inner column *)
+  Fixpoint pure_keys (lw rw : nat) (e : sx) : bool :=
+    match e with
+    | XAnd a b => pure_keys lw rw a && pure_keys lw rw b
+    | XCmp CEq (XCol l1 i1 q1) (XCol l2 i2 q2) =>
+        match key_pair lw rw ((l1, i1, q1), (l2, i2, q2)) with Some _ => true | None => false end
+        && key_side_ok lw rw (l1, i1, q1) && key_side_ok lw rw (l2, i2, q2)
+    | _ => false
+    end.
+
+  (* a scalar subquery the implementation computes as SQL defines: uncorrelated, subquery-free
+     WHERE over a base table, at most one row *)
+  Definition scalar_class (q : qry) : Z :=
+    match q with
+    | QSel [XCol O _ _] (SBase k) w =>
+        match w with
+        | None => match nth_error db k with Some (_ :: _ :: _) => 12 | _ => 0 end
+        | Some p =>
+            if own_outer p then 10
+            else if has_sub p then 11
+            else
+              match nth_error db k with
+              | Some T =>
+                  match filter_opt (fun r => ipass (look_own r) (fun _ => None) p) T with
+                  | Some (_ :: _ :: _) => 12
+                  | _ => 0
+                  end
+              | None => 0
+              end
+        end
+    | QSel [XCol (S _) _ _] _ _ => 10
+    | _ => 11
+    end.
+  Fixpoint first_nonzero (l : list Z) : Z :=
+    match l with [] => 0 | x :: l' => if x =? 0 then first_nonzero l' else x end.
+
+  (* IN / EXISTS anywhere in the expression (outside scalar subqueries) *)
+  Fixpoint has_inex (e : sx) : bool :=
+    match e with
+    | XCol _ _ _ | XLit _ | XScalar _ => false
+    | XArith _ a b | XCmp _ a b | XAnd a b | XOr a b => has_inex a || has_inex b
+    | XNot a | XIsNull _ a => has_inex a
+    | XIn _ _ _ | XExists _ _ => true
+    end.
+
+  Definition is_sub_atom (p : sx) : bool :=
+    match p with XIn _ _ _ | XExists _ _ => true | _ => false end.
+
+  Definition where_class (lw : nat) (p : sx) : Z :=
+    match decor p with
+    | Some d =>
+        if negb (is_sub_atom p) then 5
+        else if (match d with DIn true _ _ _ _ => true | _ => false end) then 6
+        else
+          match nth_error widths (dec_tab d) with
+          | None => 0
+          | Some rw =>
+              match join_cond d with
+              | None => 0
+              | Some c =>
+                  match equi_keys c with
+                  | [] => if has_sub c then 8 else 0
+                  | _ => if pure_keys lw rw c then 0 else 7
+                  end
+              end
+          end
+    | None =>
+        if has_inex p then 9
+        else first_nonzero (map scalar_class (scalars_of p))
+    end.
+
+  Fixpoint derived_simple (q : qry) : bool :=
+    match q with
+    | QSel items s (Some p) =>
+        negb (has_sub p) && forallb (fun it => match it with XCol O _ _ => true | _ => false end) items
+        && match s with SBase _ => true | SSub q' => derived_simple q' end
+    | _ => false
+    end.
+
+  Definition select_class (q : qry) : Z :=
+    match q with
+    | QSel items s w =>
+        if existsb has_sub items then 4
+        else
+          match s with
+          | SBase k =>
+              match w, nth_error widths k with
+              | Some p, Some lw => where_class lw p
+              | _, _ => 0
+              end
+          | SSub q' =>
+              if derived_simple q' && match w with Some p => negb (has_sub p) | None => true end then 0 else 13
+          end
+    | QSet _ _ _ _ => 0
+    end.
+
+  Definition stmt_class (c : chain) : Z :=
+    match snd c with
+    | [] => select_class (fst c)
+    | _ => chain_class c
+    end.
+End Db.
